@@ -1258,7 +1258,7 @@ def run_e2e(ctx, only=None):
         return
     if not getattr(ctx, "model_ok", True):
         return
-    n = 160 if ctx.quick else 1500
+    n = 500 if ctx.quick else 4000
     cfgs = static_configs()
     jobs = []
     for name, cfg in cfgs.items():
@@ -1269,7 +1269,7 @@ def run_e2e(ctx, only=None):
     if only in (None, "webdav"):
         jobs.append(lambda: e2e_webdav(ctx, bd, n))
     if only in (None, "symlink"):
-        jobs.append(lambda: e2e_symlink(ctx, bd, 400 if ctx.quick else 3000))
+        jobs.append(lambda: e2e_symlink(ctx, bd, 800 if ctx.quick else 4000))
     # (generation draws from ctx.rng: keep the order deterministic by running jobs one after another;
     #  each job is internally parallel)
     for j in jobs:
